@@ -136,9 +136,10 @@ Theorem C04_nonclaimant_bump_refuted :
     not_started s j = true /\ ready_now s j = true /\ In (WStart 7 j 0) ks /\
     lost_start (run_conc sched (s, map spawn ks)) j = true.
 Proof.
-  intros Hsw. first [discriminate Hsw|idtac].
-  exists f8_state, f8_workers, [0; 0; 1; 1; 0; 0; 1], 1.
-  repeat split; try (vm_compute; reflexivity). left. reflexivity.
+  intros Hsw.
+  first [ discriminate Hsw
+        | exists f8_state, f8_workers, [0; 0; 1; 1; 0; 0; 1], 1;
+          repeat split; try (vm_compute; reflexivity); left; reflexivity ].
 Qed.
 
 (* the same writer between the claim commit and the plan commit: the plan commit loses its CAS, is swallowed too
@@ -149,9 +150,10 @@ Theorem C04_plan_lost_to_bump_refuted :
     not_started s j = true /\ ready_now s j = true /\ In (WStart 7 j 0) ks /\
     lost_plan (run_conc sched (s, map spawn ks)) j = true.
 Proof.
-  intros Hsw. first [discriminate Hsw|idtac].
-  exists f8_state, f8_workers, [0; 0; 0; 1; 1; 0; 0; 1], 1.
-  repeat split; try (vm_compute; reflexivity). left. reflexivity.
+  intros Hsw.
+  first [ discriminate Hsw
+        | exists f8_state, f8_workers, [0; 0; 0; 1; 1; 0; 0; 1], 1;
+          repeat split; try (vm_compute; reflexivity); left; reflexivity ].
 Qed.
 
 (* both premises are `true` in coq/gen/Gen_Conc.v on the current tree (regenerated on every check and reported in the
